@@ -59,7 +59,8 @@ def gen_cases(tier, seed):
     small = [n for n in crystals.SMALL if crystals.natoms(n) <= 6]
     for k in range(24 if tier == "quick" else 160):
         name = small[rng.integers(len(small))]
-        base = [np.diag([1, 1, 1]).tolist(), np.diag([2, 1, 1]).tolist(), np.diag([2, 2, 1]).tolist(), [[1, 1, 0], [-1, 1, 0], [0, 0, 1]], np.diag([1, 1, 2]).tolist()][rng.integers(5)]
+        base = [np.diag([1, 1, 1]).tolist(), np.diag([2, 1, 1]).tolist(), np.diag([2, 2, 1]).tolist(), [[1, 1, 0], [-1, 1, 0], [0, 0, 1]], np.diag([1, 1, 2]).tolist(),
+                [[2, 1, 0], [0, 2, 0], [0, 1, 2]], [[1, 0, 1], [0, 2, 1], [0, 0, 2]]][rng.integers(7)]
         if rng.integers(3):
             K = np.diag(rng.integers(1, 3, 3))
             if rng.integers(2):
@@ -75,6 +76,9 @@ def gen_cases(tier, seed):
         cases.append({"kind": "ph2ph", "crystal": {"name": name, "order": "random", "order_seed": int(rng.integers(1000))}, "smat": base, "target": target,
                       "multiple": multiple, "pmat": ["P", "centring"][rng.integers(2)], "full": bool(rng.integers(2)), "nac": [None, None, "wang", "gonze"][rng.integers(4)], "with_nac": bool(rng.integers(3) != 0),
                       "_threads": [1, 2, 3, 5, 7, 16][int(rng.integers(6))],
+                      # constructor options of the original object (the re-expressed object must be built the same way, or at least hold constants that
+                      # belong to ITS atom order): Smith-normal-form supercell builder, sparse shortest vectors
+                      "use_SNF_supercell": bool(rng.integers(2)), "store_dense_svecs": bool(rng.integers(2)),
                       "seed": int(rng.integers(10 ** 6)), "_cost": 3 * crystals.natoms(name) * setup.det3(target)})
     return cases
 
@@ -168,6 +172,7 @@ def run_case(c):
     with_nac = bool(c["nac"]) and bool(c.get("with_nac", True))
     ph2 = ph.ph2ph(c["target"], with_nac=with_nac)
     obs["ph2ph_with_nac_%s" % with_nac] = 1
+    obs["ph2ph_snf_builder" if c.get("use_SNF_supercell") else "ph2ph_classic_builder"] = 1
     # q commensurate with both supercells (harness arithmetic): M1 q and M2 q integral
     M1 = np.rint(sc.cell @ np.linalg.inv(pr.cell)).astype(int)
     M2 = np.rint(ph2.supercell.cell @ np.linalg.inv(ph2.primitive.cell)).astype(int)
